@@ -154,6 +154,8 @@ pub fn op_strategy() -> BoxedStrategy<Op> {
         1 => Just(Op::Len),
         1 => Just(Op::Clear),
         1 => vec((k(), any::<i32>()), 0..6).prop_map(Op::Extend),
+        // a monotone run of many keys: builds a list-shaped tree several hundred levels deep around the small keys
+        1 => (-40i32..40, 40usize..500, any::<bool>(), 1i32..3).prop_map(|(start, len, up, step)| Op::Extend((0..len as i32).map(|i| (if up { start + i * step } else { start - i * step }, i)).collect())),
         1 => k().prop_map(Op::Index),
         1 => (k(), any::<i32>()).prop_map(|(a, b)| Op::IndexMutWrite(a, b)),
         3 => (0u8..6, k(), vec((0u8..6, k()), 1..8)).prop_map(|(a, b, c)| Op::HoldRef(a, b, c)),
